@@ -35,6 +35,9 @@ def ref_run(backend, ops):
         elif c == "k":
             raw = int(rest)
             out.append("x" if raw == 2 ** 32 - 1 else "k%d" % raw)
+        elif c == "u":
+            raw = int(rest)
+            out.append("x" if raw >= 2 ** 32 - 1 else "k%d" % raw)
     return " ".join(out)
 
 
@@ -63,6 +66,10 @@ class C10(Property):
         bounds = [0, 1, 254, 255, 256, 65534, 65535, 65536, 2 ** 31 - 1, 2 ** 31, 2 ** 32 - 3, 2 ** 32 - 2, 2 ** 32 - 1]
         for b in BACKENDS:
             res.append(("corpus", "I %s i97 i98 %s %s" % (b, " ".join("k%d" % r for r in bounds), " ".join("r%d" % r for r in bounds))))
+        # cstree keys seen through lasso's Key trait: 64-bit raw values on both sides of 2^32
+        big = [0, 1, 2 ** 32 - 2, 2 ** 32 - 1, 2 ** 32, 2 ** 32 + 1, 2 ** 33 - 1, 2 ** 33, 2 ** 40 + 5, 2 ** 63, 2 ** 64 - 2 ** 32, 2 ** 64 - 2 ** 32 - 1, 2 ** 64 - 2, 2 ** 64 - 1]
+        for b in ("k", "r", "t"):
+            res.append(("corpus", "I %s i97 i98 %s" % (b, " ".join("u%d" % r for r in big))))
         # capacity exhaustion of the small key types reached for real
         res.append(("corpus", "I c " + " ".join("i%d" % (1000 + i) for i in range(258)) + " i1000 j2000 r254 r255 r0"))
         if tier == "thorough" and os.environ.get("VERIF_SOAK"):
@@ -87,8 +94,10 @@ class C10(Property):
                     ops.append(("i" if rng.chance(4, 5) else "j") + rng.choice(pool))
                 elif r < 9:
                     ops.append("r%d" % rng.below(len(pool) + 3))
-                else:
+                elif BACKENDS[i % len(BACKENDS)] in "dwu" or rng.chance(1, 2):
                     ops.append("k%d" % rng.choice([rng.below(2 ** 32), 2 ** 32 - 1, 2 ** 32 - 2, 0]))
+                else:
+                    ops.append("u%d" % rng.choice([rng.below(2 ** 32), rng.below(2 ** 32) * 2 ** 32 + rng.below(4), rng.below(2 ** 64), 2 ** 32 - 1, 2 ** 32]))
             res.append(("random", "I %s %s" % (BACKENDS[i % len(BACKENDS)], " ".join(ops))))
         for i in range(12 if tier == "quick" else 200):
             res.append(("concurrent", "P %s %d %d %d" % (rng.choice(["a", "h"]), 2 + rng.below(7), rng.choice([8, 50, 400]), rng.below(10 ** 6))))
